@@ -38,6 +38,7 @@ Expect(step, pool) ==
          [] op = "SetMaterial"   -> SetMaterial(a, g.m)
          [] op = "SetMaterials"  -> SetMaterials(a, g.mats)
          [] op = "SetAttr"       -> SetAttr(a, g.ar, g.id, g.data)
+         [] op = "SetAttrWindow" -> SetAttr(a, g.ar, g.id, SubSeq(g.data, 1, g.n))   \* a window of a longer shared array
          [] op = "ModifyAttr"    -> ModifyAttr(a, g.ar, g.id, g.fn, g.k)
          [] op = "CopyAttr"      -> CopyAttr(a, S(step, pool, 2), g.ar, g.id)
          [] op = "Translate"     -> Translate(a, g.v)
@@ -66,7 +67,7 @@ Expect(step, pool) ==
 Class(op) ==
     CASE op \in {"Unweld", "RemoveUnreferenced", "Split", "Filter", "Crop"} -> "corners"
       [] op \in {"Weld", "RemoveNullFaces"} -> "cornersnomats"
-      [] op \in {"Export", "Scan", "Misc"} -> "none"      \* Misc: judged on frame and well-formedness only
+      [] op \in {"Export", "Scan", "Misc", "Prim"} -> "none"      \* Misc: judged on frame and well-formedness only
       [] op \in AttrOps -> "attr"
       [] OTHER -> "exact"
 
@@ -91,6 +92,7 @@ Admissible(step, pool) ==
        /\ CASE op = "New" -> WellFormed(g.mesh) /\ SortedAttrs(g.mesh)
             [] op = "SetIndices" -> WellFormed(SetIndices(a, g.idx))
             [] op = "SetAttr" -> WellFormed(SetAttr(a, g.ar, g.id, g.data))
+            [] op = "SetAttrWindow" -> g.n <= Len(g.data) /\ WellFormed(SetAttr(a, g.ar, g.id, SubSeq(g.data, 1, g.n)))
             [] op = "CopyAttr" -> WellFormed(CopyAttr(a, S(step, pool, 2), g.ar, g.id))
             [] op = "Split" -> SplitPre(a)
             [] op = "Filter" -> a.topo = "point"
